@@ -38,6 +38,25 @@ Theorem C12_raced_value_is_not_lost : forall info A accepts debug_args cfg sched
   forall m i j, taken (g_state (fst st)) m i j = true -> In (m, i, j) (g_deliv (fst st)).
 Proof. intros info A accepts debug_args cfg sched callss. exact (single_use_not_lost info A accepts debug_args cfg sched callss). Qed.
 
+(* WHO receives it.  [deliveries sched st]: for every step of the schedule that hands a value out, the thread that made the
+   step and the value.  That log is the delivery log (nothing is handed out in any other way), so each single-use value has
+   at most one receiving (thread, step) over ANY schedule; and the receiving step is the step at which that thread's request
+   returns a value to its caller (never a panic) *)
+Theorem C12_exactly_one_receiver : forall info A accepts debug_args cfg sched callss,
+  let st0 := (init_glob, map (fun cs => advance info A accepts debug_args cfg cs []) callss) in
+  g_deliv (fst (run_sched info A accepts debug_args cfg sched st0)) = map snd (deliveries info A accepts debug_args cfg sched st0) /\
+  NoDup (map snd (deliveries info A accepts debug_args cfg sched st0)).
+Proof.
+  intros info A accepts debug_args cfg sched callss. cbn zeta. split.
+  - exact (deliveries_are_the_log info A accepts debug_args cfg sched _).
+  - exact (one_receiver info A accepts debug_args cfg sched callss).
+Qed.
+
+Theorem C12_receiving_step_returns_the_value : forall info A accepts debug_args cfg g th m i j,
+  g_deliv (fst (fst (tstep info A accepts debug_args cfg g th))) = (g_deliv g ++ [(m, i, j)])%list ->
+  exists v more, t_out (snd (fst (tstep info A accepts debug_args cfg g th))) = (t_out th ++ ActReturn (RVTag v) :: more)%list.
+Proof. exact delivering_step_returns. Qed.
+
 (* a request for an emptied slot is an error, never a value; a request for a full slot empties it and either returns
    the value or goes on to the value's further slots *)
 Theorem C12_slot_request : forall info A accepts debug_args cfg g m a i p j v,
@@ -99,6 +118,17 @@ Proof.
     + apply in_app_or in Hin as [Hin|[Hin|[]]]; [apply (G b Hb k r); exact Hin|injection Hin as _ <-; exact I].
     + apply (G b Hb k r); exact Hin.
 Qed.
+
+Example C12_receiver_nonvacuous :
+  (* two threads race for a composite value (two slots) under the schedule 0,0,1,1,1,0: thread 0, which emptied the first slot,
+     is the one receiver although thread 1's request ends first *)
+  match assemble hinfo cfg_std FbError [TCall 9 SomeCall (Pt (Some 255) None [OReturns 7])] with
+  | Some (inl cfg) =>
+    deliveries hinfo N haccepts hdebug cfg [0; 0; 1; 1; 1; 0]%nat
+               (init_glob, map (fun cs => advance hinfo N haccepts hdebug cfg cs []) [[(9, 0)]; [(9, 0)]]) = [(0%nat, (9, 0%nat, 0%nat))]
+  | _ => False
+  end.
+Proof. vm_compute. reflexivity. Qed.
 
 Example C12_nonvacuous :
   (* three threads race for one single-use value under the schedule 2,0,1,1,0,2: exactly one gets it *)
